@@ -24,15 +24,15 @@ func plan(tier string, seed uint64) []run {
 	local := "new,comment,title,status,label,editcomment,twoedits,commentlast,remove,resolveall,reopen"
 	if tier != "thorough" {
 		return []run{
-			{"two users, synchronisation alphabet", Params{Seed: seed, Kinds: sync}, 4, 6 * time.Minute},
-			{"one user, every edit kind, eviction, removal, reopen (B idle)", Params{Seed: seed, Kinds: local, Users: "A"}, 4, 6 * time.Minute},
-			{"two users, full alphabet", Params{Seed: seed}, 3, 6 * time.Minute},
+			{"two users, synchronisation alphabet", Params{Seed: seed, Kinds: sync}, 4, 10 * time.Minute},
+			{"one user, every edit kind, eviction, removal, reopen (B idle)", Params{Seed: seed, Kinds: local, Users: "A"}, 4, 10 * time.Minute},
+			{"two users, full alphabet", Params{Seed: seed}, 3, 10 * time.Minute},
 		}
 	}
 	return []run{
 		{"two users, synchronisation alphabet", Params{Seed: seed, Kinds: sync}, 5, 20 * time.Minute},
 		{"one user, every edit kind, eviction, removal, reopen (B idle)", Params{Seed: seed, Kinds: local, Users: "A"}, 5, 25 * time.Minute},
-		{"two users, full alphabet", Params{Seed: seed}, 3, 10 * time.Minute},
+		{"two users, full alphabet", Params{Seed: seed}, 4, 25 * time.Minute},
 	}
 }
 
